@@ -1,7 +1,8 @@
 #!/bin/sh
-# usage: check_twin.sh <twin-or-seed name> <property> -- run one check on a scratch copy with the patch applied, print non-ok lines
+# usage: check_twin.sh <twin-or-seed name | patch file> <property> -- run one check on a scratch copy with the patch applied, print non-ok lines
 T=$(mktemp -d); (cd /repo && git archive HEAD rtamt | tar -x -C $T)
-P=/verif/twins/$1/patch.diff; [ -f $P ] || P=/verif/seeded/$1/patch.diff
+P=$1
+[ -f "$P" ] || P=/verif/twins/$1/patch.diff; [ -f "$P" ] || P=/verif/twins12/$1/patch.diff; [ -f "$P" ] || P=/verif/twins13/$1/patch.diff; [ -f "$P" ] || P=/verif/seeded/$1/patch.diff
 (cd $T && git init -q . && git apply $P) || echo "patch failed"
-SA_OUT=$(mktemp -d) /verif/check $2 --repo $T 2>&1 | grep -v "^  ok\|^  analysed\|^KNOWN-FINDING" | cut -c1-${3:-400} | head -${4:-12}
+SA_OUT=$(mktemp -d) /verif/check $2 --repo $T 2>&1 | grep -v "^  ok\|^  analysed\|^KNOWN-FINDING\|WARNING" | cut -c1-${3:-400} | head -${4:-12}
 rm -rf $T
